@@ -263,11 +263,17 @@ def _r5(ctx):
     t = ctx.func("ArchSemantics.assign_tp_lt")
     br = [n for n in ast.walk(t.node) if isinstance(n, ast.If) and U(n.test) == "instruction_form.mnemonic is None"]
     body = [U(s) for s in br[0].body] if br else []
-    want = ["throughput = 0.0", "latency = 0.0", "instruction_form.port_uops = []"]
-    ok = bool(br) and all(w in body for w in want) and any(
-        C.is_zero_vector_assign(s, "instruction_form.port_pressure") for s in br[0].body) and any(
-        b in ("latency_wo_load = latency", "latency_wo_load = 0.0") for b in body)
-    ctx.check(ok, "R5", "assign_tp_lt: no mnemonic -> zero throughput/latency/pressure, no micro-ops", t.where(),
+    # which names are assigned the constant 0.0 in the branch (chained assignments count for every target)
+    zeroed = set()
+    for s in (br[0].body if br else []):
+        if isinstance(s, ast.Assign) and (C.const_num(s.value) == 0 or (isinstance(s.value, ast.Name) and s.value.id in zeroed)):
+            zeroed |= {U(x) for x in s.targets}
+    ok = bool(br) and {"throughput", "latency", "latency_wo_load"} <= zeroed and "instruction_form.port_uops = []" in body and any(
+        C.is_zero_vector_assign(s, "instruction_form.port_pressure") for s in br[0].body)
+    # recognised: the three result locals exist in this function (otherwise the results are carried differently)
+    known = bool(br) and bool({"throughput", "latency", "latency_wo_load"} & {
+        x.id for s in br[0].body for x in ast.walk(s) if isinstance(x, ast.Name) and isinstance(x.ctx, ast.Store)})
+    ctx.judge(ok, bool(br) and known, "R5", "assign_tp_lt: no mnemonic -> zero throughput/latency/pressure, no micro-ops", t.where(),
               "assign_tp_lt's branch for lines without mnemonic is %s" % body, t.qname, "tp_lt neutral")
     if br:
         look = C.calls_to(t.node, "get_instruction")
